@@ -977,6 +977,12 @@ func c12Judge(st *c12Stream, c c12Case, d c12Damage, o c12Obs) (vs []c12Verdict)
 			add("mismatch-wrong-error", "the damage starts at byte %d, behind the intact metadata block (ends at %d), yet Recover(version %d) returned %q instead of VersionMismatch",
 				d.first, st.MetaEnd, c12Other, o.err)
 		}
+		if errors.Is(o.err, VersionMismatch) && o.adopted && st.Uptime != 0 {
+			// "rejected ... before any entry is loaded" and "never invents ... longer lifetimes": a receiver that adopted the
+			// saver's clock origin although it rejected the stream has shifted the deadline of everything it holds
+			add("mismatch-clock-adopted", "Recover(version %d) rejected a version-%d stream with VersionMismatch, yet the receiver's clock origin moved to the saver's (%d ns earlier): the deadlines of whatever the receiver holds shifted by that much",
+				c12Other, c12Version, st.Uptime)
+		}
 		if o.err != nil && (o.length != 0 || len(o.resident) != 0 || len(o.held) != 0) {
 			add("mismatch-entries-inserted", "Recover(version %d) of a version-%d stream returned err=%v but left %d entries resident %s (policy holds %d keys)",
 				c12Other, c12Version, o.err, o.length, c12Keys(o.resident), len(o.held))
